@@ -1,6 +1,7 @@
 package main
 
 import (
+	"os"
 	"fmt"
 	"go/constant"
 	"go/token"
@@ -63,11 +64,180 @@ func specErr(e *SExpr, format string, args ...any) {
 }
 
 func (x *Exec) trBool(e *SExpr, env *TrEnv) *Term {
-	t := x.trExpr(e, env)
+	t, err := x.tryTrBool(e, env)
+	if err == nil {
+		return t
+	}
+	// A local variable that the contract mentions may have been renamed in the code. Loop invariants and lets are proof
+	// hints: matching the unknown name to a local of the function is sound whatever the choice (a wrong choice can only
+	// make obligations fail). It is done only when exactly one local in scope, not mentioned anywhere in the contract,
+	// makes the clause well sorted.
+	msg := err.msg
+	i := strings.Index(msg, "unknown identifier ")
+	if i < 0 || x.fi == nil || x.c == nil || env.pos == token.NoPos {
+		if os.Getenv("GOVC_DBG") != "" {
+			fmt.Fprintf(os.Stderr, "DBG no retry: %s pos=%v\n", msg, env.pos)
+		}
+		panic(*err)
+	}
+	name := strings.TrimSpace(msg[i+len("unknown identifier "):])
+	if x.identAlias == nil {
+		x.identAlias = map[string]*types.Var{}
+	}
+	if _, done := x.identAlias[name]; done {
+		panic(*err)
+	}
+	var okCands []*types.Var
+	var okTerm *Term
+	for _, cand := range x.renameCandidates(env.pos) {
+		x.identAlias[name] = cand
+		if t2, err2 := x.tryTrBool(e, env); err2 == nil {
+			// the candidate must also fit the `let` macros of the contract that mention the name
+			fitsLets := true
+			for _, l := range x.c.Lets {
+				if sexprMentions(l.Expr, name) {
+					if _, err3 := x.tryTrAny(l.Expr, env); err3 != nil && !strings.Contains(err3.msg, "unknown identifier") {
+						fitsLets = false
+					}
+				}
+			}
+			if fitsLets {
+				okCands = append(okCands, cand)
+				okTerm = t2
+			}
+		}
+		delete(x.identAlias, name)
+	}
+	if len(okCands) != 1 {
+		if os.Getenv("GOVC_DBG") != "" {
+			var ns []string
+			for _, c := range okCands {
+				ns = append(ns, c.Name()+":"+c.Type().String())
+			}
+			fmt.Fprintf(os.Stderr, "DBG rename %s at %s: fit %v\n", name, e.Pos, ns)
+		}
+		panic(*err)
+	}
+	x.identAlias[name] = okCands[0]
+	x.assumptions[fmt.Sprintf("the contract of %s mentions `%s`, which is no longer a variable of the function: matched to the local `%s` (renamed?)", x.fi.Name, name, okCands[0].Name())] = true
+	return okTerm
+}
+
+func (x *Exec) tryTrBool(e *SExpr, env *TrEnv) (t *Term, err *unsupported) {
+	defer func() {
+		if r := recover(); r != nil {
+			if us, ok := r.(unsupported); ok {
+				err = &us
+				return
+			}
+			panic(r)
+		}
+	}()
+	t = x.trExpr(e, env)
 	if t.Sort != SBool {
 		specErr(e, "expected Bool, got %s", t.Sort)
 	}
-	return t
+	return t, nil
+}
+
+func (x *Exec) tryTrAny(e *SExpr, env *TrEnv) (t *Term, err *unsupported) {
+	defer func() {
+		if r := recover(); r != nil {
+			if us, ok := r.(unsupported); ok {
+				err = &us
+				return
+			}
+			panic(r)
+		}
+	}()
+	return x.trExpr(e, env), nil
+}
+
+func sexprMentions(e *SExpr, name string) bool {
+	if e == nil {
+		return false
+	}
+	if (e.Kind == "id" || e.Kind == "call") && e.Name == name {
+		return true
+	}
+	for _, a := range e.Args {
+		if sexprMentions(a, name) {
+			return true
+		}
+	}
+	for _, a := range e.Lo {
+		if sexprMentions(a, name) {
+			return true
+		}
+	}
+	for _, a := range e.Hi {
+		if sexprMentions(a, name) {
+			return true
+		}
+	}
+	return false
+}
+
+// renameCandidates: the local variables in scope at pos whose names occur nowhere in the contract of the function.
+func (x *Exec) renameCandidates(pos token.Pos) []*types.Var {
+	mentioned := map[string]bool{}
+	var walk func(e *SExpr)
+	walk = func(e *SExpr) {
+		if e == nil {
+			return
+		}
+		if e.Kind == "id" || e.Kind == "call" {
+			mentioned[e.Name] = true
+		}
+		for _, a := range e.Args {
+			walk(a)
+		}
+		for _, a := range e.Lo {
+			walk(a)
+		}
+		for _, a := range e.Hi {
+			walk(a)
+		}
+		for _, pat := range e.Pats {
+			for _, p := range pat {
+				walk(p)
+			}
+		}
+	}
+	for _, c := range x.c.Requires {
+		walk(c.Expr)
+	}
+	for _, c := range x.c.Ensures {
+		walk(c.Expr)
+	}
+	for _, a := range x.c.Assigns {
+		walk(a)
+	}
+	for _, l := range x.c.Lets {
+		walk(l.Expr)
+	}
+	for _, ls := range x.c.Loops {
+		for _, inv := range ls.Invariants {
+			walk(inv.Expr)
+		}
+	}
+	var out []*types.Var
+	seen := map[*types.Var]bool{}
+	scope := x.fi.Pkg.Types.Scope().Innermost(pos)
+	for sc := scope; sc != nil && sc != x.fi.Pkg.Types.Scope(); sc = sc.Parent() {
+		for _, n := range sc.Names() {
+			v, ok := sc.Lookup(n).(*types.Var)
+			if !ok || seen[v] || mentioned[n] || n == "_" {
+				continue
+			}
+			if v.Pos() > pos {
+				continue // declared later
+			}
+			seen[v] = true
+			out = append(out, v)
+		}
+	}
+	return out
 }
 
 // lookupProgramVar resolves a source-level variable name.
@@ -76,7 +246,10 @@ func (x *Exec) lookupProgramVar(name string, env *TrEnv) (*Term, bool) {
 		return nil, false
 	}
 	var obj types.Object
-	if env.pos != token.NoPos && !env.isEntry {
+	if a, ok := x.identAlias[name]; ok {
+		obj = a
+	}
+	if obj == nil && env.pos != token.NoPos && !env.isEntry {
 		scope := x.fi.Pkg.Types.Scope().Innermost(env.pos)
 		if scope != nil {
 			_, obj = scope.LookupParent(name, env.pos)
@@ -427,7 +600,32 @@ func (x *Exec) trIndex(e *SExpr, env *TrEnv) *Term {
 			return v
 		}
 	}
-	if _, _, ok := isArraySort(a.Sort); ok {
+	if k, _, ok := isArraySort(a.Sort); ok {
+		if i.Sort != k {
+			specErr(e, "index of sort %s into an array with keys of sort %s", i.Sort, k)
+		}
+		// ghost heaps belong to objects of particular library types: wbuf[x] is meaningful for builders/buffers only, ...
+		if e.Args[0].Kind == "id" && i.GoType != nil {
+			if allowed, ok := ghostOwners[e.Args[0].Name]; ok {
+				tn := ""
+				if n := namedOf(i.GoType); n != nil && n.Obj().Pkg() != nil {
+					tn = n.Obj().Pkg().Name() + "." + n.Obj().Name()
+				}
+				if _, isIface := types.Unalias(i.GoType).Underlying().(*types.Interface); tn != "" && !isIface {
+					fits := false
+					for _, a := range allowed {
+						if a == tn {
+							fits = true
+						}
+					}
+					if !fits {
+						specErr(e, "%s[...] indexed by a %s", e.Args[0].Name, tn)
+					}
+				} else if isIface && tn != "" && tn != "io.Writer" && tn != "snaps.testingT" {
+					specErr(e, "%s[...] indexed by an interface value of type %s", e.Args[0].Name, tn)
+				}
+			}
+		}
 		return Select(a, i)
 	}
 	if isSliceSort(a.Sort) {
@@ -444,6 +642,14 @@ func (x *Exec) trIndex(e *SExpr, env *TrEnv) *Term {
 	}
 	specErr(e, "index on sort %s", a.Sort)
 	return nil
+}
+
+// ghostOwners: the library types whose objects carry the ghost field.
+var ghostOwners = map[string][]string{
+	"wbuf":  {"strings.Builder", "bytes.Buffer"},
+	"fpath": {"os.File"}, "foff": {"os.File"}, "fappend": {"os.File"},
+	"scpos": {"bufio.Scanner"}, "scsrc": {"bufio.Scanner"}, "scunb": {"bufio.Scanner"}, "scgen": {"bufio.Scanner"},
+	"held": {"sync.Mutex", "sync.RWMutex"},
 }
 
 // dottedPath flattens a selector chain of identifiers (a.b.c) into its components.
